@@ -1845,14 +1845,30 @@ class Processor:
             and isinstance(node_coords[0], NodeCoords)
             and isinstance(node_coords[0].node, list)
         ):
-            # Give each element the same parent and its relative index
             node_coord = node_coords[0]
             flat_nodes = []
             for flatten_idx, flatten_node in enumerate(node_coord.node):
+                if isinstance(flatten_node, NodeCoords):
+                    # Already-located results (like Array slices); give each
+                    # the same parent and its relative index
+                    flat_nodes.append(
+                        NodeCoords(
+                            flatten_node, node_coord.parent, flatten_idx,
+                            node_coord.path, node_coord.ancestry, pathseg))
+                    continue
+
+                # Elements of a real Array are children of that Array, not
+                # of the Array's own parent
+                flat_path = node_coord.path
+                if flat_path is not None:
+                    flat_path = flat_path + "[{}]".format(flatten_idx)
                 flat_nodes.append(
                     NodeCoords(
-                        flatten_node, node_coord.parent, flatten_idx,
-                        node_coord.path, node_coord.ancestry, pathseg))
+                        flatten_node, node_coord.node, flatten_idx,
+                        flat_path,
+                        node_coord.ancestry + [
+                            (node_coord.node, flatten_idx)],
+                        pathseg))
             node_coords = flat_nodes
 
         # As long as each next segment is an ADDITION, SUBTRACTION, or
